@@ -402,6 +402,7 @@ pub fn run(args: &[&str]) -> String {
         "hand" => op_hand(args[1], args[2].parse().unwrap(), args[3]),
         "mreq" => crate::sess::op_mreq(args[1], args[2], args[3].parse().unwrap()),
         "minit" => crate::sess::op_minit(args[1]),
+        "e2e" => crate::e2e02::run(args),
         _ => panic!("unknown handler op"),
     }
 }
@@ -494,7 +495,9 @@ pub fn gen_script(r: &mut Rng, flavor: &str) -> String {
             });
         }
     }
-    let hs_kind = if flavor == "C08" { r.below(6) } else { 0 };
+    // C20: a third of the connections stay silent from the start (no handshake ever arrives)
+    let silent_start = flavor == "C20" && r.chance(1, 3);
+    let hs_kind = if flavor == "C08" { r.below(6) } else if silent_start { 5 } else { 0 };
     let peer_id = if outgoing { expected_id.clone() } else { rand_id(r) };
     match hs_kind {
         0 | 1 | 2 => evs.push(format!("{}>B{}", hs_valid(&peer_id), hex(&r.bytes(bf_bytes)))),
@@ -508,7 +511,12 @@ pub fn gen_script(r: &mut Rng, flavor: &str) -> String {
         let w = |lo: u64, hi: u64| roll >= lo && roll < hi;
         let ev: String = match flavor {
             "C20" => {
-                if w(0, 50) {
+                if silent_start && w(0, 85) {
+                    // nothing but the timer (and, rarely below, keep-alives) before any handshake
+                    format!("t{}", r.pick(&[30u64, 60, 119, 120, 121, 240]))
+                } else if silent_start {
+                    "f:ka".into()
+                } else if w(0, 50) {
                     format!("t{}", r.pick(&[1u64, 30, 59, 60, 61, 119, 120, 121, 239, 240, 360]))
                 } else if w(50, 65) {
                     "f:ka".into()
@@ -665,6 +673,15 @@ pub fn gen(r: &mut Rng, n: usize, flavor: &str) -> Vec<String> {
                 _ => r.below(1 << 21) as usize,
             };
             out.push(format!("left {}", len));
+        }
+    }
+    if flavor == "C01" {
+        // "assembled": three end-to-end downloads (real session, extraction included); two of them with every piece at
+        // exactly one peer and a slow peer, so that a fast peer is dismissed while pieces are still being fetched
+        for l in crate::e2e02::gen(r, 10) {
+            if l.ends_with(" 2") || l.ends_with(" 3") || out.len() < 1 {
+                out.push(l);
+            }
         }
     }
     if flavor == "C11" {
